@@ -15,7 +15,11 @@ CHECKS = {
             "never fails; and again from any store left behind by earlier executions. " + CORR,
             "", "DESIGN.md 5/C01"),
     "C02": (TV, "Lean model of tree building and of the emitted SELECT + correspondence incl. execution of every generated query on SQLite; supporting theorems for the tree-building half",
-            CORR + "Supporting machine-checked theorems (Props/C02.lean, every recursion budget): a unary operation applied "
+            CORR + "Supporting machine-checked theorems (Props/C02.lean, every recursion budget): for EVERY construction history "
+            "inside one SQL engine (leaves, any number of unary operations, chains, joins with automatic common columns and a "
+            "predicate, materializations, any nesting) the tree the factories build has, in the reference semantics, exactly "
+            "the rows (values, multiplicity, order) and columns of the direct evaluation of the operation sequence "
+            "(sql_history_tree_sem - the SQL analogue of C01's history theorem, at tree level); a unary operation applied "
             "inside the SQL engine to any raw SQL tree (incl. chains and joins), and conform of one, yield exactly the rows "
             "(values, multiplicity, order) and columns of direct evaluation - through slot merging, subquery nesting and "
             "projection push-down into UNION branches; joining two Selects (projections stripped and re-applied, hidden "
